@@ -5,6 +5,7 @@ package proxy
 import (
 	"fmt"
 	"net"
+	"slices"
 	"strconv"
 
 	"github.com/fatedier/frp/verif"
@@ -103,4 +104,86 @@ func verif_UDPProxy_Close(pxy *UDPProxy) {
 		verif.Ensures(verif.CallCount(evRelease) == 1, "close_releases_once")
 		verif.Ensures(verif.Closed(pxy.checkCloseCh) && verif.Closed(pxy.readCh) && verif.Closed(pxy.sendCh), "channels_closed")
 	}
+}
+
+// ---------------------------------------------------------------- C08: secret proxies
+
+const evVisitorListen = "visitor.Manager).Listen"
+const evNatListen = "nathole.Controller).ListenClient"
+
+// "by default only the proxy owner's user": the allow-list registered for a
+// secret proxy is the configured one, or the owner's user when none is given;
+// the key registered is the proxy's secret key.
+//
+//verif:contract (*~/server/proxy.STCPProxy).Run
+//verif:props C08 C10
+func verif_STCPProxy_Run(pxy *STCPProxy) {
+	want := pxy.cfg.AllowUsers
+	if len(want) == 0 {
+		want = []string{pxy.GetUserInfo().User}
+	}
+	sk, name := pxy.cfg.Secretkey, pxy.GetName()
+	verif.ResetEvents()
+	_, err := pxy.Run()
+	verif.Ensures(verif.CallCount(evVisitorListen) == 1, "registers_once")
+	verif.Ensures(verif.CalledWith(evVisitorListen, 1, name) && verif.CalledWith(evVisitorListen, 2, sk), "registers_own_name_and_key")
+	verif.Ensures(slices.Equal(verif.NthArg[[]string](evVisitorListen, 0, 3), want), "allow_list_defaults_to_owner")
+	verif.Ensures((err == nil) == (verif.RetErr(evVisitorListen, 1) == nil), "fails_iff_registration_fails")
+}
+
+//verif:contract (*~/server/proxy.SUDPProxy).Run
+//verif:props C08 C10
+func verif_SUDPProxy_Run(pxy *SUDPProxy) {
+	want := pxy.cfg.AllowUsers
+	if len(want) == 0 {
+		want = []string{pxy.GetUserInfo().User}
+	}
+	sk, name := pxy.cfg.Secretkey, pxy.GetName()
+	verif.ResetEvents()
+	_, err := pxy.Run()
+	verif.Ensures(verif.CallCount(evVisitorListen) == 1, "registers_once")
+	verif.Ensures(verif.CalledWith(evVisitorListen, 1, name) && verif.CalledWith(evVisitorListen, 2, sk), "registers_own_name_and_key")
+	verif.Ensures(slices.Equal(verif.NthArg[[]string](evVisitorListen, 0, 3), want), "allow_list_defaults_to_owner")
+	verif.Ensures((err == nil) == (verif.RetErr(evVisitorListen, 1) == nil), "fails_iff_registration_fails")
+}
+
+//verif:contract (*~/server/proxy.XTCPProxy).Run
+//verif:props C08 C10
+func verif_XTCPProxy_Run(pxy *XTCPProxy) {
+	want := pxy.cfg.AllowUsers
+	if len(want) == 0 {
+		want = []string{pxy.GetUserInfo().User}
+	}
+	sk, name := pxy.cfg.Secretkey, pxy.GetName()
+	supported := pxy.rc.NatHoleController != nil
+	verif.ResetEvents()
+	_, err := pxy.Run()
+	if supported {
+		verif.Ensures(verif.CallCount(evNatListen) == 1, "registers_once")
+		verif.Ensures(verif.CalledWith(evNatListen, 1, name) && verif.CalledWith(evNatListen, 2, sk), "registers_own_name_and_key")
+		verif.Ensures(slices.Equal(verif.NthArg[[]string](evNatListen, 0, 3), want), "allow_list_defaults_to_owner")
+		verif.Ensures((err == nil) == (verif.RetErr(evNatListen, 1) == nil), "fails_iff_registration_fails")
+	} else {
+		verif.Ensures(err != nil && !verif.Called(evNatListen), "unsupported_refused")
+	}
+}
+
+// Close gives the name back (C10).
+//
+//verif:contract (*~/server/proxy.STCPProxy).Close
+//verif:props C10
+func verif_STCPProxy_Close(pxy *STCPProxy) {
+	name := pxy.GetName()
+	verif.ResetEvents()
+	pxy.Close()
+	verif.Ensures(verif.CalledWith("visitor.Manager).CloseListener", 1, name), "releases_own_listener_entry")
+}
+
+//verif:contract (*~/server/proxy.SUDPProxy).Close
+//verif:props C10
+func verif_SUDPProxy_Close(pxy *SUDPProxy) {
+	name := pxy.GetName()
+	verif.ResetEvents()
+	pxy.Close()
+	verif.Ensures(verif.CalledWith("visitor.Manager).CloseListener", 1, name), "releases_own_listener_entry")
 }
